@@ -254,6 +254,12 @@ func (fr *Frame) sprintf(i *ssa.Call, args []Val, st *State, g Term, isErr bool)
 	fc, ok := i.Call.Args[0].(*ssa.Const)
 	if !ok || fc.Value.Kind() != constant.String {
 		x.usedAssumptions["FMT: non-constant format string treated as opaque"] = true
+		if _, isParam := i.Call.Args[0].(*ssa.Parameter); !isParam && !isErr && !fr.ghost {
+			// a format string computed at run time (not a constant, not the format parameter of a
+			// printf-like wrapper): its verbs cannot be matched against the operands, so "%!" markers
+			// cannot be excluded (C01)
+			x.assert(g, fr.oname(fmt.Sprintf("fmt/format-is-constant@%s", x.srcText(i.Pos(), "call"))), TFalse, x.posOf(i.Pos()), "the format string of this Sprintf is computed at run time: operands cannot be checked against its verbs")
+		}
 		return x.fresh("fmt", SStr)
 	}
 	format := constant.StringVal(fc.Value)
